@@ -406,11 +406,15 @@ class Calls:
             pat = S.const_value(env, a0) if isinstance(a0, Str) else None
             if pat is None:
                 return RegexV(None)
-            flags = 0
+            flags = self.regex_flags(args[1] if len(args) > 1 else kwargs.get('flags'))
+            if flags is None:
+                return RegexV(None)
             return RegexV(self.regex_lang(pat, flags))
         if name in ('re.match', 're.search', 're.fullmatch'):
             pat = S.const_value(env, a0) if isinstance(a0, Str) else None
-            flags = re.I if ('flags' in kwargs or len(args) > 2) else 0
+            flags = self.regex_flags(args[2] if len(args) > 2 else kwargs.get('flags'))
+            if flags is None:
+                pat = None
             lang = self.regex_lang(pat, flags) if pat is not None else None
             return self.regex_match(lang, name.split('.')[1], args[1], node, env)
         if name == 're.sub':
@@ -559,6 +563,22 @@ class Calls:
         return self.B.cls_of_chars(digs + digs.upper()) | (S.ND if base >= 10 else frozenset())
 
     # ------------------------------------------------------------- regex
+    def regex_flags(self, v):
+        """re flag value of an abstract argument (None when it cannot be determined)."""
+        if v is None:
+            return 0
+        if isinstance(v, Int) and v.const() is not None:
+            return v.const()
+        if isinstance(v, Ext):
+            out = 0
+            for part in v.name.replace('flags:', '').split('|'):
+                nm = part.split('.')[-1]
+                if not part.startswith('re.') or not hasattr(re, nm):
+                    return None
+                out |= int(getattr(re, nm))
+            return out
+        return None
+
     def regex_lang(self, pat, flags):
         key = (pat, flags)
         if key not in self.regex_cache:
